@@ -215,17 +215,32 @@ def run(ctx):
             both = len(sides) == 2 and ((1 in sides[0] and 2 in sides[1]) or (2 in sides[0] and 1 in sides[1]))
         # the two streams are built from the texts alone: nothing but the comment/code classification selects what is compared
         unit = [x for x in p.by_crate["rustfmt_nightly"] if x.id == g.id or x.id.startswith(g.id + "::{closure")]
+        # a stream builder that was given a name of its own (`fn code_comment_content(code: &str) -> impl Iterator`) belongs to the unit
+        grew = True
+        while grew:
+            grew = False
+            for x in list(unit):
+                for c in x.calls():
+                    h = p.fns.get(c.resolved or "")
+                    if h is None or h in unit or not h.id.startswith("rustfmt_nightly::comment::") or h.kind == "Closure":
+                        continue
+                    if any("UngroupedCommentCodeSlices" in d.name and d.name.endswith("::new") for d in h.calls()):
+                        unit.append(h)
+                        unit += [y for y in p.by_crate["rustfmt_nightly"] if y.id.startswith(h.id + "::{closure")]
+                        grew = True
+        unit_ids = {x.id for x in unit}
         extra = []
         for x in unit:
             for c in x.calls():
                 nm = c.name
                 if nm.startswith("rustfmt_nightly::") or nm.startswith("<rustfmt_nightly::"):
-                    if any(t in nm for t in ("UngroupedCommentCodeSlices", "CommentReducer", "CodeCharKind")) or nm.startswith(g.id):
+                    if any(t in nm for t in ("UngroupedCommentCodeSlices", "CommentReducer", "CodeCharKind")) or nm.startswith(g.id) \
+                            or (c.resolved or "") in unit_ids or any(nm.startswith(u) for u in unit_ids):
                         continue
                     extra.append((x, c))
                 elif nm.startswith("core::str::") or "<impl str>" in nm:
                     extra.append((x, c))
-        selective = g.argc != 2 or bool(extra)
+        selective = g.argc != 2 or bool(extra) or any(x.kind != "Closure" and x is not g and x.argc != 1 for x in unit)
         r.instance(C, "changed_comment_content: what is compared is selected by the comment/code classification only",
                    "violation" if selective else "ok", "%s:%d" % (g.file, g.line),
                    "parameters=%d, other selectors=%s" % (g.argc, sorted({short(c.name) for x, c in extra})))
@@ -248,6 +263,7 @@ def run(ctx):
     offset_base_agreement(ctx, "R03-g")
     use_tree_comment_carrier(ctx, "R03-h")
     list_item_extent_covers_printer(ctx, "R03-i")
+    import_grouping_is_a_partition(ctx, "R03-j")
     D = r.rule("R03-d", "lists::write_list (with the closures it owns) reads every comment-bearing field of ListItem: "
                         "pre_comment, pre_comment_style, post_comment, new_lines")
     wl = p.named("write_list", within="rustfmt_nightly::lists")
@@ -538,3 +554,42 @@ def list_item_extent_covers_printer(ctx, rid):
                             "attributed to nothing and dropped", sorted(where) + ["%s:%d" % (sf.file, sf.line)])
     r.floor(rid, len(custom), 3, "list-item nodes whose Spanned::span ends at a child")
     r.floor(rid, n, 10, "(node, emitted child) pairs")
+
+
+def import_grouping_is_a_partition(ctx, rid):
+    """R03-j: grouping imports distributes the trees, it does not select among them"""
+    from common import natural_loops
+    p, r = ctx.p, ctx.r
+    r.rule(rid, "reorder::group_imports takes ownership of the use trees of a run and hands back groups: on every path through the "
+                "body of its loop the element just taken from the iterator is moved into one of the groups (a `Vec::push` whose "
+                "argument is that element).  A tree is also the only carrier of the comments attached to its declaration "
+                "(UseTree::list_item), and an import that normalises to nothing (`use a::{};`) still has them: a `continue` "
+                "without a push deletes the comments, and for any other tree the import itself")
+    f = p.named("group_imports", within="reorder")
+    if f is None:
+        r.undecidable(rid, "reorder::group_imports not found")
+        return
+    n = 0
+    for h, body in natural_loops(f):
+        nexts = [c for c in f.calls() if c.bb in body and ((c.declared or "").endswith("Iterator::next") or c.name.endswith("Iterator>::next"))]
+        for nx in nexts:
+            from common import result_edges
+            for e in result_edges(f, nx):
+                if e.get("ok") is None:
+                    continue
+                n += 1
+                pushes = set()
+                for c in f.calls():
+                    if c.bb in body and c.name.endswith("::push") and "Vec" in c.name and len(c.args) >= 2 and c.args[1][0] != "k":
+                        d = f.derived_from(c.args[1][1][0])
+                        if nx in d["calls"]:
+                            pushes.add(c.bb)
+                reach = f.reachable(e["ok"], avoid_blocks=pushes, stop_blocks=[h])
+                dropped = h in reach or any(b in reach for b in f.returns())
+                r.instance(rid, "group_imports: every tree taken from the run is pushed into a group", "violation" if dropped else "ok",
+                           nx.loc(), "%d push sites" % len(pushes))
+                if dropped:
+                    r.violation(rid, "group_imports drops a use tree on some path",
+                                "the loop can go on to the next element (or return) without having pushed the current one into a group: "
+                                "the tree, and the comments it carries, vanish from the output", [nx.loc()])
+    r.floor(rid, n, 1, "element-taking loops in group_imports")
